@@ -1096,6 +1096,8 @@ theorem orig_done_publishes (s : RState) (tr : List RStep) (h0 : s.pc ≠ .done)
       cases e with
       | update => simpa [stepOrig] using h0
       | cancel => simpa [stepOrig] using h0
+      | cloneHandle => simpa [stepOrig] using h0
+      | dropHandle => simpa [stepOrig] using h0
       | task fired =>
         rcases hpc : s.pc with _ | _ | _ | _
         · simp [stepOrig, hpc]
@@ -1116,6 +1118,8 @@ theorem orig_no_cancel_stays (tr : List RStep) (h : RStep.cancel ∉ tr) (s : RS
     cases e with
     | update => exact ih hes _ hs hc
     | cancel => exact absurd (List.mem_cons_self ..) h
+    | cloneHandle => exact ih hes _ hs hc
+    | dropHandle => exact ih hes _ hs hc
     | task fired =>
       apply ih hes
       · simp only [stepOrig, hs]; split
@@ -1143,12 +1147,71 @@ theorem c20_shutdown_publishes_rest (pre post : List RStep) (hpre : RStep.cancel
 ends without publishing anything, the update is lost; (2) the cancel lands between a periodic publish and the next
 test of the loop condition. The code's loop publishes in both runs. -/
 example :
-    (runR stepDedup initDedup [.update, .cancel, .task false, .task false]) = (⟨.done, true⟩, [.upd]) ∧
-    (runR stepOrig initOrig [.update, .cancel, .task false, .task false]) = (⟨.done, true⟩, [.upd, .pub]) ∧
+    (runR stepDedup initDedup [.update, .cancel, .task false, .task false]) = (⟨.done, true, 1⟩, [.upd]) ∧
+    (runR stepOrig initOrig [.update, .cancel, .task false, .task false]) = (⟨.done, true, 1⟩, [.upd, .pub]) ∧
     (runR stepDedup initDedup [.task false, .update, .task true, .update, .cancel, .task false, .task false])
-      = (⟨.done, true⟩, [.upd, .pub, .upd]) ∧
+      = (⟨.done, true, 1⟩, [.upd, .pub, .upd]) ∧
     (runR stepOrig initOrig [.task false, .update, .task true, .update, .cancel, .task false, .task false])
-      = (⟨.done, true⟩, [.upd, .pub, .upd, .pub]) := by
+      = (⟨.done, true, 1⟩, [.upd, .pub, .upd, .pub]) := by
+  decide
+
+/-! ### Handles: cloning and dropping `MetricReporter` handles does nothing to the task -/
+
+/-- the trace without the clone / drop steps of `MetricReporter` handles -/
+def eraseHandles : List RStep → List RStep
+  | [] => []
+  | .cloneHandle :: es => eraseHandles es
+  | .dropHandle :: es => eraseHandles es
+  | .update :: es => .update :: eraseHandles es
+  | .cancel :: es => .cancel :: eraseHandles es
+  | .task f :: es => .task f :: eraseHandles es
+
+theorem handles_key (tr : List RStep) : ∀ (s t : RState), s.pc = t.pc → s.cancelled = t.cancelled →
+    (runR stepOrig s tr).2 = (runR stepOrig t (eraseHandles tr)).2 ∧
+    (runR stepOrig s tr).1.pc = (runR stepOrig t (eraseHandles tr)).1.pc ∧
+    (runR stepOrig s tr).1.cancelled = (runR stepOrig t (eraseHandles tr)).1.cancelled := by
+  induction tr with
+  | nil => intro s t h1 h2; exact ⟨rfl, h1, h2⟩
+  | cons e es ih =>
+    intro s t h1 h2
+    cases e with
+    | cloneHandle => simpa only [runR, stepOrig, eraseHandles, List.nil_append] using ih { s with handles := s.handles + 1 } t h1 h2
+    | dropHandle => simpa only [runR, stepOrig, eraseHandles, List.nil_append] using ih { s with handles := s.handles - 1 } t h1 h2
+    | update =>
+      have := ih s t h1 h2
+      simp only [eraseHandles, runR, stepOrig]
+      exact ⟨by rw [this.1], this.2⟩
+    | cancel =>
+      have := ih { s with cancelled := true } { t with cancelled := true } h1 rfl
+      simp only [eraseHandles, runR, stepOrig]
+      exact ⟨by rw [this.1], this.2⟩
+    | task fired =>
+      have hstep : (stepOrig s (.task fired)).2 = (stepOrig t (.task fired)).2 ∧
+          (stepOrig s (.task fired)).1.pc = (stepOrig t (.task fired)).1.pc ∧
+          (stepOrig s (.task fired)).1.cancelled = (stepOrig t (.task fired)).1.cancelled := by
+        simp only [stepOrig, ← h1, ← h2]
+        rcases s.pc with _ | _ | _ | _ <;> simp only [] <;> (try split) <;> (try split) <;> simp_all
+      have := ih _ _ hstep.2.1 hstep.2.2
+      simp only [eraseHandles, runR]
+      exact ⟨by rw [hstep.1, this.1], this.2⟩
+
+/-- **C20 (reporter handles).** The token is cancelled by `shutdown()` only: in every run, deleting all clone / drop
+steps of `MetricReporter` handles changes neither what is published (and when, relative to the updates) nor the
+task's state — the handle count is bookkeeping that no transition reads. -/
+theorem c20_reporter_handles_irrelevant (s : RState) (tr : List RStep) :
+    (runR stepOrig s tr).2 = (runR stepOrig s (eraseHandles tr)).2 ∧
+    (runR stepOrig s tr).1.pc = (runR stepOrig s (eraseHandles tr)).1.pc ∧
+    (runR stepOrig s tr).1.cancelled = (runR stepOrig s (eraseHandles tr)).1.cancelled :=
+  handles_key tr s s rfl rfl
+
+/-- **Witness**: were dropping a handle to cancel the token (`stepDropCancels`), a clone dropped while the program is
+still running ends the task early — the update made afterwards is never published, although `shutdown()` is called on
+the surviving handle and completes; the code's task publishes it. -/
+example :
+    let tr : List RStep := [.task false, .update, .cloneHandle, .dropHandle, .task false, .task false,
+                            .update, .cancel, .task false, .task false]
+    (runR stepDropCancels initOrig tr).2 = [.upd, .pub, .upd] ∧ (runR stepDropCancels initOrig tr).1.pc = .done ∧
+    (runR stepOrig initOrig tr).2 = [.upd, .upd, .pub] ∧ (runR stepOrig initOrig tr).1.pc = .done := by
   decide
 
 
@@ -1251,3 +1314,4 @@ end MetricsRs
 #print axioms MetricsRs.c20_shutdown_publishes_rest
 #print axioms MetricsRs.c20_record_many_is_n_records
 #print axioms MetricsRs.c20_record_many_single_add
+#print axioms MetricsRs.c20_reporter_handles_irrelevant
